@@ -1023,6 +1023,35 @@ func trivialTrue(cond string) bool {
 
 // splitAnd flattens nested top-level conjunctions.
 func splitAnd(cond string) []string {
+	if strings.HasPrefix(cond, "(=> ") {
+		// (=> a (and b c)) splits into (=> a b), (=> a c)
+		body := cond[4 : len(cond)-1]
+		d := 0
+		for i := 0; i < len(body); i++ {
+			if body[i] == '(' {
+				d++
+			} else if body[i] == ')' {
+				d--
+			}
+			if d == 0 && (body[i] == ' ' || body[i] == ')') {
+				cut := i
+				if body[i] == ')' {
+					cut = i + 1
+				}
+				ante, cons := body[:cut], strings.TrimSpace(body[cut:])
+				parts := splitAnd(cons)
+				if len(parts) == 1 {
+					return []string{cond}
+				}
+				var out []string
+				for _, p := range parts {
+					out = append(out, "(=> "+ante+" "+p+")")
+				}
+				return out
+			}
+		}
+		return []string{cond}
+	}
 	if !strings.HasPrefix(cond, "(and ") {
 		return []string{cond}
 	}
